@@ -228,3 +228,6 @@ func vNative() bool { return true }
 
 // vStep marks the boundary of an atomic step of a stub (a scheduling point that counts against the preemption bound).
 func vStep() {}
+
+// vAdvanceClock lets d nanoseconds pass on the engine's clock (natively: not available, time is real).
+func vAdvanceClock(d int64) {}
